@@ -239,6 +239,9 @@ class Simulator:
             SimulationEvent: the simulation event that is scheduled
 
         """
+        if time_delta < 0:
+            raise ValueError("trying to schedule an event in the past")
+
         event = SimulationEvent(
             self.time + time_delta,
             function,
